@@ -34,6 +34,31 @@ def shape(h, cps, features=None, script="DFLT", lang="dflt", direction="ltr"):
             for i, p in zip(buf.glyph_infos, buf.glyph_positions)]
 
 
+def shape_trace(h, cps, features=None, script="DFLT", lang="dflt", direction="ltr"):
+    """Every glyph id that is in the buffer at any point of shaping (HarfBuzz message callback)."""
+    buf = hb.Buffer()
+    buf.add_codepoints(list(cps))
+    buf.direction = direction
+    buf.script = iso_script(script)
+    if lang and lang != "dflt":
+        buf.set_language_from_ot_tag(lang)
+    else:
+        buf.language = "dflt"
+    buf.cluster_level = hb.BufferClusterLevel.MONOTONE_CHARACTERS
+    seen = set()
+
+    def cb(_msg):
+        for gi in buf.glyph_infos:
+            seen.add(gi.codepoint)
+        return True
+
+    buf.set_message_func(cb)
+    hb.shape(h.font, buf, features or {})
+    for gi in buf.glyph_infos:
+        seen.add(gi.codepoint)
+    return seen
+
+
 def named(res, order):
     return [((order[g] if g < len(order) else "gid%d" % g), cl, xa, ya, xo, yo) for g, cl, xa, ya, xo, yo in res]
 
